@@ -36,7 +36,7 @@ CLAUSE_PROP = [
     ("pair.", None),
 ]
 # clauses that several properties own (checked by each of them)
-ALSO = {"mk.guard-leaf": {"C03", "C06"}, "mk.kids-foreign-change": {"C03", "C06"}, "grow.not-fresh": {"C04", "C06"}, "grow.init-not-fresh": {"C04", "C06"},
+ALSO = {"mk.guard-leaf": {"C03", "C06", "C08", "C12"}, "mk.kids-foreign-change": {"C03", "C06"}, "grow.not-fresh": {"C04", "C06"}, "grow.init-not-fresh": {"C04", "C06"},
         "sweep.new-cell-not-fresh": {"C04", "C08"}, "seq.new-cell-not-fresh": {"C04", "C12"}}
 
 
